@@ -30,3 +30,4 @@ import RenetVerif.Props.SrcTieConn
 import RenetVerif.Props.SrcTieConnSend
 import RenetVerif.Props.SrcTieConnRecv
 import RenetVerif.Props.SrcTieServer
+import RenetVerif.Props.SrcTieNcCodec
